@@ -40,6 +40,8 @@ def judge(w, spec, plan, opts, mode, V, C, truth_mod):
     T = truth_mod.compute(w.events, spec, plan, opts)
     model = T.model
     rep = opts.get('repeat') or 1
+    stop = bool(opts.get('stop'))
+    nofact_all = 0
     want = vworld.expected_tests(spec, opts)
     for L in set(T.units.values()):
         # layers of classes that are run as a unit
@@ -92,6 +94,14 @@ def judge(w, spec, plan, opts, mode, V, C, truth_mod):
             C('ran_lines_checked')
             ok = (t in (it_tests, it_tests + len(nofact)) and f == it_F and
                   e in (it_E, it_E + nimp) and s == it_S)
+            if stop:
+                # with -x the tests behind the stop point are not reached:
+                # any number of the decorator-skipped tests (which leave no
+                # fact) may have been seen
+                base_S = it_S - len(nofact)
+                ok = (it_tests <= t <= it_tests + len(nofact) and
+                      f == it_F and e in (it_E, it_E + nimp) and
+                      base_S <= s <= it_S)
             if not ok:
                 mech = 'counts-layer-summary'
                 if (t, f, e) == (it_tests + len(nofact), it_F, it_E) or \
@@ -106,6 +116,7 @@ def judge(w, spec, plan, opts, mode, V, C, truth_mod):
         # totals: the tests of one iteration / of the last iteration; the
         # failure, error and skip events of all iterations (or of one, when
         # every iteration is alike - leniency of DESIGN 2/C12)
+        nofact_all += len(nofact)
         alike = len({(x['tests'], x['F'], x['E'], x['S']) for x in its}) <= 1
         last = its[-1] if its else {'tests': 0, 'F': 0, 'E': 0, 'S': 0}
         sumT += last['tests']
@@ -125,6 +136,9 @@ def judge(w, spec, plan, opts, mode, V, C, truth_mod):
         okF = f in (sumF, sumF_it)
         okE = e in (sumE + nlf + nimp, sumE_it + nlf + nimp)
         okS = s in (sumS, sumS_it)
+        if stop:
+            okT = sumT <= t <= sumT_alt
+            okS = sumS - nofact_all <= s <= sumS
         if not (okT and okF and okE and okS):
             mech = 'counts-total'
             if okT and okF and okE and not okS:
@@ -262,6 +276,21 @@ def run_case(case):
             other = ('resume', plan2, opts)
         elif r < 0.4:
             other = ('par', plan, dict(opts, processes=rng.randint(2, 4)))
+        if other and other[0] == 'par' and rng.random() < 0.35 and \
+                not opts.get('repeat'):
+            # --stop-on-error in a parallel run: every subprocess stops for
+            # itself, whatever has been executed anywhere is still counted;
+            # one layer is slow, so that the layers do not finish together
+            import copy
+            mode, p2, o2 = other
+            o2 = dict(o2, stop=True)
+            p2 = copy.deepcopy(p2)
+            slow = rng.choice(sorted(T.tests))
+            t = p2.setdefault('tests', {}).setdefault(slow, {})
+            t['actions'] = list(t.get('actions') or []) + [
+                {'ph': 'setUp', 'do': 'sleep', 's': 0.4}]
+            other = ('par-stop', p2, o2)
+            C('stop_on_error_par_runs')
         if other:
             mode, p2, o2 = other
             if rng.random() < 0.6:
